@@ -1,6 +1,12 @@
 package main
 
 import (
+	"bytes"
+	"os"
+	"os/exec"
+	"path/filepath"
+	"sync/atomic"
+	"net/http/httptest"
 	"context"
 	"errors"
 	"fmt"
@@ -94,6 +100,9 @@ func runC18(idx int, rng *rand.Rand, tier string) []Case {
 	dnsSrv.once.Do(startDNS)
 	if dnsSrv.fatal != nil {
 		panic(dnsSrv.fatal)
+	}
+	if idx%40 == 7 {
+		return c18CLI(idx, rng)
 	}
 	if idx%2 == 1 {
 		return c18ConnectCases(idx, rng, tier)
@@ -274,4 +283,61 @@ func clipStrs(s []string, n int) []string {
 		return s[:n]
 	}
 	return s
+}
+
+// the attack command with -connect-to: whatever the other connection options are, the requests
+// for a mapped address must reach its replacements, all of them over time
+func c18CLI(idx int, rng *rand.Rand) []Case {
+	nsrv := 1 + rng.Intn(3)
+	hits := make([]int64, nsrv)
+	var srvs []*httptest.Server
+	var repl []string
+	for i := 0; i < nsrv; i++ {
+		i := i
+		s := httptest.NewServer(http.HandlerFunc(func(w http.ResponseWriter, r *http.Request) {
+			atomic.AddInt64(&hits[i], 1)
+			w.Write([]byte("ok"))
+		}))
+		srvs = append(srvs, s)
+		repl = append(repl, strings.TrimPrefix(s.URL, "http://"))
+	}
+	defer func() {
+		for _, s := range srvs {
+			s.Close()
+		}
+	}()
+	keepalive := rng.Intn(2) == 0
+	h2 := rng.Intn(2) == 0
+	out := filepath.Join(scratchDir(), fmt.Sprintf("c18cli%d.bin", idx))
+	defer os.Remove(out)
+	args := []string{"attack", "-rate", "60", "-duration", "500ms", "-output", out, "-timeout", "2s",
+		fmt.Sprintf("-keepalive=%v", keepalive), fmt.Sprintf("-http2=%v", h2)}
+	for _, r := range repl {
+		args = append(args, "-connect-to", "mapped.invalid:80:"+r)
+	}
+	cmd := exec.Command(os.Getenv("VERIF_VEGETA"), args...)
+	cmd.Stdin = strings.NewReader("GET http://mapped.invalid/\n")
+	runErr := cmd.Run()
+	b, _ := os.ReadFile(out)
+	rs, _ := decodeAll(vegeta.NewDecoder(bytes.NewReader(b)), 1<<20)
+	okc := 0
+	for _, r := range rs {
+		if r.Code == 200 && r.Error == "" {
+			okc++
+		}
+	}
+	var c Case
+	w := &c.W
+	w.Z(3)
+	w.Bool(runErr == nil)
+	w.Bool(keepalive)
+	w.I(len(rs)); w.I(okc)
+	w.I(nsrv)
+	for i := range hits {
+		w.Z(atomic.LoadInt64(&hits[i]))
+	}
+	c.Tag = "cli.connectto;nt"
+	c.Dist = fmt.Sprintf("cli/keepalive=%v/http2=%v/replacements%d", keepalive, h2, nsrv)
+	c.Sample = map[string]interface{}{"args": args, "results": len(rs), "ok": okc, "hits_per_replacement": hits}
+	return []Case{c}
 }
